@@ -29,6 +29,18 @@ type balWorld struct {
 	h      *ev.History
 	fresh  int
 	epoch  int64
+
+	c01, c02 bool // which property's oracle is applied by check
+}
+
+// check applies the oracle(s) of the property under test to one invocation.
+func (w *balWorld) check(pre, post *balState, o *chainkit.Outcome, op *balOp) {
+	if w.c01 {
+		w.checkC01(pre, post, o, op)
+	}
+	if w.c02 {
+		w.checkC02(pre, post, o, op)
+	}
 }
 
 // rawAcc is one raw storage entry under prefix 'a'.
